@@ -26,7 +26,7 @@ META = {
         'order, a label is selected by equality with the scanned bit, sdss_flagval contributes exactly 2**bit; '
         'C07.U64 - the shift / power / and operands are numpy uint64; C07.ALIAS - alias entries are copies of the aliased '
         'group built after all MASKBITS rows; C07.ACCUM - a row extends its group when the group already exists (never '
-        'replaces it); C07.NO-MEMO - no function reading the reconfigurable cache is memoised. NOT decided: the set-algebra '
+        'replaces it); C07.NO-MEMO - no function reading the reconfigurable cache is memoised. C07.CASEFOLD-STORE - set_maskbits folds every key it stores (group, alias, label, membership test) with upper(), as every reader folds its query; C07.WRAP - only a str counts as a single label; C07.SCAN64 also recognises the shift-down scan (`v >>= 1` per bit) and then requires the shift on every path to the next iteration. NOT decided: the set-algebra '
         'identities on concrete files (follow from the above plus dict semantics; not mechanised), += vs |= for repeated labels.'),
     'floors': {'C07.CASEFOLD-STORE': 6, 'C07.WRAP': 1, 'C07.CASEFOLD': 8, 'C07.GUARDED': 5, 'C07.SCAN64': 4, 'C07.U64': 4, 'C07.ALIAS': 1, 'C07.ACCUM': 1, 'C07.NO-MEMO': 3},
 }
